@@ -12,8 +12,9 @@ from vf.harness import STATS
 
 PID = "C14"
 REFUSERS = {"Borda", "Borda(bucket_id)", "PickAPerm", "BioCo", "BioConsert[Borda]", "BioConsert[PickAPerm]", "BioConsert[KwikSort,Borda]",
-            "BioConsert[Copeland,PickAPerm]"}
-CFGS = ["BioConsert", "BioConsert[Copeland]", "BioConsert[Borda]", "BioConsert[PickAPerm]", "BioConsert[KwikSort,Borda]", "BioCo",
+            "BioConsert[Copeland,PickAPerm]", "BioConsert[Borda,Copeland]", "BioConsert[PickAPerm,Borda]"}
+CFGS = ["BioConsert", "BioConsert[Copeland]", "BioConsert[Borda]", "BioConsert[PickAPerm]", "BioConsert[KwikSort,Borda]", "BioConsert[Borda,Copeland]",
+        "BioConsert[PickAPerm,Borda]", "BioCo",
         "KwikSortRandom", "Borda", "Borda(bucket_id)", "Copeland", "PickAPerm", "ExactPulp", "ExactCplex(noopt)", "ExactCplex(opt)",
         "ExactCplexOptim1", "Exact(opt)", "Exact(opt,nocplex)", "ParCons", "ParCons(nocplex)", "ParCons(1,BioConsert)", "ParCons(1,Copeland)",
         "ParCons(2,Borda,nocplex)"]
@@ -21,14 +22,31 @@ CFGS = ["BioConsert", "BioConsert[Copeland]", "BioConsert[Borda]", "BioConsert[P
 
 def item(args):
     cfg, lvs, names, flag, _ = args[:5]
+    hist = args[6] if len(args) > 6 else None
     sweep.install()
     out = []
-    ds = shapes.build(lvs, names)
+    ds = shapes.build(lvs, names) if hist is None else None
+    lvs0 = lvs
     B, T = fork.scheme_vars()
     sc = fork.make_scheme(B, T)
     ex = fork.Explorer(fork.valid_scheme(B, T), max_paths=int(2e5))
 
     def path(ctx):
+        nonlocal ds, lvs
+        if hist is not None:
+            # aggregate once (primes whatever the library caches), edit the dataset in place, then ask and aggregate again
+            ds = shapes.build(lvs0, names)
+            try:
+                a0, _ = sweep.make_config(cfg, [])
+                a0.compute_consensus_rankings(ds, sc, flag)
+                ds.unified_rankings(), ds.get_positions(), ds.universe
+            except harness.HarnessError:
+                raise
+            except harness.Inconclusive:
+                raise
+            except Exception:  # noqa
+                pass
+            lvs = sweep.apply_history(ds, lvs0, names, hist)
         log = []
         alg, _ = sweep.make_config(cfg, log)
         try:
@@ -66,7 +84,12 @@ def item(args):
         if not refusal:
             sweep.chk_wellformed(o, out)
     ex.explore(path)
-    STATS.sample({"config": cfg, "dataset": shapes.raw_json(lvs, names), "scheme": "12 symbolic reals", "predicate asked first": True}, cap=8)
+    if hist is not None:
+        for pl in out:
+            pl["history"] = {"first": shapes.raw_json(lvs0, names), "op": list(hist)}
+            pl["signature"] = dict(pl["signature"], history=hist[0])
+    STATS.sample({"config": cfg, "dataset": shapes.raw_json(lvs0, names), "history": list(hist) if hist else None, "scheme": "12 symbolic reals",
+                  "predicate asked first": True}, cap=8)
     return out
 
 
@@ -82,6 +105,7 @@ def run(run):
     run.outside = ["n > 4, m > 2", "user-defined algorithms as starters / auxiliaries"]
     run.rule = "one item per (configuration, dataset); per path: predicate answer and outcome of compute are compared structurally; paths = scheme classes x algorithm paths"
     items = sweep.make_items(run, CFGS, [], flags=(True,), light=light, heavy=heavy)
+    items += sweep.history_items(run, [c for c in CFGS if c not in sweep.HEAVY or c in ("BioCo", "BioConsert[Borda]")], [], 4 if run.thorough else 2)
     run.pmap("applicability", item, sweep.order_items(items), chunksize=1)
     run.extra["work_items"] = len(items)
     run.extra["stubs"] = sweep.install()
@@ -94,7 +118,22 @@ def replay(p):
     sweep.install()
     chk = p["check"]
     sc = ScoringScheme([[float(x) for x in v] for v in p["scheme"]])
-    ds = Dataset.from_raw_list(shapes.from_json(p["rankings"]))
+    if "history" in p:
+        from corankco.element import Element
+        ds = Dataset.from_raw_list(shapes.from_json(p["history"]["first"]))
+        try:
+            a0, _ = sweep.make_config(p["config"], [])
+            a0.compute_consensus_rankings(ds, sc, p["flag"])
+            ds.unified_rankings(), ds.get_positions(), ds.universe
+        except Exception:  # noqa
+            pass
+        if p["history"]["op"][0] == "empty":
+            ds.remove_empty_rankings()
+        else:
+            names0 = sorted({x for r in p["history"]["first"] for b in r for x in b}, key=str)
+            ds.remove_elements({Element(x) for x in names0 if x not in {y for r in p["rankings"] for b in r for y in b}})
+    else:
+        ds = Dataset.from_raw_list(shapes.from_json(p["rankings"]))
     standins.PINNED[:] = [c[1] for c in p.get("choices", [])]
     alg, _ = sweep.make_config(p["config"], [])
     if p["config"] in ("ExactPulp", "Exact(opt,nocplex)", "ParCons(nocplex)", "ParCons(2,Borda,nocplex)"):
